@@ -246,6 +246,7 @@ def core_docs(tier):
     out.append(("collide", 0))
     out.append(("collide", 3))
     out.append(("collide", 5))
+    out.append(("collide", 8))
     return out
 
 
@@ -257,10 +258,14 @@ def collide_doc(variant: int):
     prs = header_params() + (Param("STATUS", "STATUS"), Param("NEST", "NEST"), Param("CCSDSPacket", "NEST"), Param("TAIL", "STATUS"))
     # variant & 4: the nested container's name is padded with blanks (spelled the same wherever it is referenced): a name is the exact string
     nn = " NEST  " if variant & 4 else "NEST"
+    if variant & 8:
+        nn = 'N\'E"ST'   # an apostrophe and a double quote are ordinary characters of a name
+    # RESERVED has an empty entry list (a placeholder block) and is nested by two containers, once before and once after its own element
     conts = [Container("CCSDSPacket", header_entries(), abstract=True),
-             Container("STATUS", (("p", "STATUS"), ("c", nn), ("p", "TAIL")), base="CCSDSPacket", criteria=(Cmp("PKT_APID", "==", "1"),)),
+             Container("STATUS", (("p", "STATUS"), ("c", nn), ("c", "RESERVED"), ("p", "TAIL")), base="CCSDSPacket", criteria=(Cmp("PKT_APID", "==", "1"),)),
              Container(nn, (("p", "NEST"), ("p", "CCSDSPacket"))),
-             Container("TAIL", (("c", nn), ("p", "STATUS")), base="CCSDSPacket", criteria=(Cmp("PKT_APID", "==", "2"),))]
+             Container("RESERVED", ()),
+             Container("TAIL", (("c", nn), ("c", "RESERVED"), ("p", "STATUS"), ("c", "RESERVED")), base="CCSDSPacket", criteria=(Cmp("PKT_APID", "==", "2"),))]
     if variant & 1:
         conts = list(reversed(conts))
     if variant & 2:
@@ -360,7 +365,7 @@ def run(ctx):
         specs = specs[::2]
     else:
         specs = specs[::3]
-    items = [("collide", v) for v in range(8)] + [("trees", s) for s in specs] + [("palette", ((a, b), (a + b) % 3 + 1)) for a in range(len(c01.pal())) for b in range(0, len(c01.pal()), 5)]
+    items = [("collide", v) for v in range(12)] + [("trees", s) for s in specs] + [("palette", ((a, b), (a + b) % 3 + 1)) for a in range(len(c01.pal())) for b in range(0, len(c01.pal()), 5)]
     tally.merge(fan_out(_task_consistency, [{"items": ch} for ch in chunked(items, 128)], jobs=ctx.jobs, seed=ctx.seed))
     tally.merge(fan_out(_task_bundled, [{"item": it} for it in BUNDLED], jobs=ctx.jobs, mem_gib=None))
     coverage = {
